@@ -7,6 +7,8 @@ use vh_seq::emfx::layers::{layers, walk};
 use vh_seq::emfx::reference::*;
 use vh_seq::emfx::*;
 
+static CHUNKS: std::sync::OnceLock<Vec<usize>> = std::sync::OnceLock::new();
+
 #[derive(Default)]
 struct St {
     out: Vec<u8>,
@@ -21,6 +23,8 @@ struct St {
     /// whatever this worker formatted before (content must not depend on earlier entries)
     reused: std::collections::HashMap<usize, Runner>,
     reused_compared: u64,
+    chunked_compared: u64,
+    clone_compared: u64,
 }
 
 fn shape(exp: &Expected) -> u64 {
@@ -46,12 +50,76 @@ fn check(st: &mut St, cfg: &CfgD, pristine: &Emf, entry: &EntryD) {
         return;
     }
     check_one(st, cfg, pristine, entry, false, false);
+    for k in CHUNKS.get().map(|v| v.as_slice()).unwrap_or(&[5]) {
+        check_chunked(st, cfg, pristine, entry, *k);
+    }
     check_one(st, cfg, pristine, entry, true, false);
+    if cfg.mult == Mult::None {
+        // a clone of that long-lived formatter (taken now, after what it has formatted)
+        if let Some(mut c) = st.reused.get(&(pristine as *const Emf as usize)).and_then(|r| r.clone_used()) {
+            let mut out = std::mem::take(&mut st.out);
+            out.clear();
+            let outcome = c.format(entry, &mut out);
+            st.clone_compared += 1;
+            let replay = || json!({"config": cfg.to_json(), "entry": entry.to_json(), "formatter": "clone of a long-lived formatter (which had formatted other entries before)", "output": String::from_utf8_lossy(&out)});
+            match &outcome {
+                Outcome::Ok => match parse_output(&out) {
+                    Ok(recs) => {
+                        if let Err(msg) = compare(cfg, &expected_records(cfg, entry), &recs) {
+                            st.v.add("record-mismatch:on-clone-of-used-formatter", format!("records emitted by a clone of a used formatter differ from the reference interpretation: {msg}"), replay());
+                        }
+                    }
+                    Err(msg) => st.v.add("unparseable-output:on-clone-of-used-formatter", format!("output is not well-formed EMF: {msg}"), replay()),
+                },
+                other => st.v.add("valid-entry-rejected:on-clone-of-used-formatter", format!("a defect-free entry was not formatted: {other:?}"), replay()),
+            }
+            st.out = out;
+        }
+    }
     if cfg.mult != Mult::None {
         // the same long-lived sampling formatter through its unsampled `Format::format` route:
         // the records of a plain formatter (counts not weighted)
         check_one(st, cfg, pristine, entry, true, true);
     }
+}
+
+/// An output that accepts at most `k` bytes per call (a pipe or socket under pressure): what
+/// reaches it must still be the record the formatter assembled.
+struct ChunkWriter {
+    k: usize,
+    got: Vec<u8>,
+}
+impl std::io::Write for ChunkWriter {
+    fn write(&mut self, buf: &[u8]) -> std::io::Result<usize> {
+        let n = buf.len().min(self.k);
+        self.got.extend_from_slice(&buf[..n]);
+        Ok(n)
+    }
+    fn flush(&mut self) -> std::io::Result<()> {
+        Ok(())
+    }
+}
+
+fn check_chunked(st: &mut St, cfg: &CfgD, pristine: &Emf, entry: &EntryD, k: usize) {
+    let mut w = ChunkWriter { k, got: std::mem::take(&mut st.out) };
+    w.got.clear();
+    let outcome = std::panic::catch_unwind(std::panic::AssertUnwindSafe(|| Runner::from_emf(pristine.clone(), cfg.mult).format(entry, &mut w)));
+    st.chunked_compared += 1;
+    let out = w.got;
+    let replay = || json!({"config": cfg.to_json(), "entry": entry.to_json(), "formatter": "fresh", "output_accepts_at_most_bytes_per_write": k, "output": String::from_utf8_lossy(&out)});
+    match &outcome {
+        Ok(Outcome::Ok) => match parse_output(&out) {
+            Ok(recs) => {
+                if let Err(msg) = compare(cfg, &expected_records(cfg, entry), &recs) {
+                    st.v.add("record-mismatch:output-with-short-writes", format!("records that reached an output taking {k} bytes per write differ from the reference interpretation: {msg}"), replay());
+                }
+            }
+            Err(msg) => st.v.add("unparseable-output:output-with-short-writes", format!("what reached an output taking {k} bytes per write is not well-formed EMF: {msg}"), replay()),
+        },
+        Ok(other) => st.v.add("valid-entry-rejected:output-with-short-writes", format!("a defect-free entry was not formatted: {other:?}"), replay()),
+        Err(_) => st.v.add("panic:output-with-short-writes", format!("the formatter panicked on an output taking {k} bytes per write"), replay()),
+    }
+    st.out = out;
 }
 
 fn check_one(st: &mut St, cfg: &CfgD, pristine: &Emf, entry: &EntryD, reused: bool, unsampled_route: bool) {
@@ -107,6 +175,7 @@ fn main() {
         std::process::exit(if ok { 0 } else { 1 })
     }
     let ls = layers(rep.tier);
+    let _ = CHUNKS.set(rep.tier.pick(vec![5], vec![1, 5]));
     let states = walk(&ls, St::default, |st, _l, cfg, pristine, entry| check(st, cfg, pristine, entry));
     let mut states = states;
     let mut scaled_cases = 0u64;
@@ -127,8 +196,12 @@ fn main() {
     let mut shapes = BTreeSet::new();
     let (mut cases, mut compared, mut records, mut ood) = (0, 0, 0, 0);
     let mut reused_total = 0u64;
+    let mut chunked_total = 0u64;
+    let mut clone_total = 0u64;
     for s in states {
         reused_total += s.reused_compared;
+        chunked_total += s.chunked_compared;
+        clone_total += s.clone_compared;
         cases += s.cases; compared += s.compared; records += s.records; ood += s.out_of_domain;
         shapes.extend(s.shapes);
         rep.violations.merge(s.v);
@@ -139,6 +212,8 @@ fn main() {
     rep.set("records_compared", records);
     rep.set("outside_documented_domain_skipped", ood);
     rep.set("cases_repeated_on_a_long_lived_formatter", reused_total);
+    rep.set("cases_repeated_into_an_output_with_short_writes", chunked_total);
+    rep.set("cases_repeated_on_a_clone_of_the_long_lived_formatter", clone_total);
     rep.set("distinct_nontrivial", shapes.len() as u64);
     rep.set("rule", "complete cross products of the alphabets in emfx/gen_.rs (layers A1,A2,B,C) restricted to the documented domain; every accepted output is parsed by the strict parser and compared, as a multiset of records, with an independent reference interpretation (emfx/reference.rs::expected_records); distinct = distinct expected-record shapes (records, dimension sets, definitions, per-member kind/counts)");
     rep.set("scaled_entry_cases", scaled_cases);
